@@ -128,6 +128,19 @@ def h_plot(sed_type, n_ap, n_sel, form, nm=2):
         rf.models = pk.L.load('sedfitter.models')
         plotmod = pk.L.load('sedfitter.plot')
         plotmod.LineCollection = Recorder
+        # observation at the boundary of SED.interpolate / interpolate_variable: which model's SED is evaluated at which apertures
+        sedmod = pk.L.load('sedfitter.sed.sed')
+        calls = []
+        in_i, in_iv = sedmod.SED.interpolate, sedmod.SED.interpolate_variable
+
+        def obs_i(self_, apertures):
+            calls.append(('interpolate', self_.name, symnp._obj(su.value_of(apertures)).reshape(-1).copy()))
+            return in_i(self_, apertures)
+
+        def obs_iv(self_, wavelengths, apertures):
+            calls.append(('interpolate_variable', self_.name, symnp._obj(su.value_of(apertures)).reshape(-1).copy()))
+            return in_iv(self_, wavelengths, apertures)
+        sedmod.SED.interpolate, sedmod.SED.interpolate_variable = obs_i, obs_iv
         ex = C.Explorer(query_timeout_ms=60000, log_monotone=(n_ap > 1), pow10_monotone=(n_ap > 1))
         cl = R.Claims(part, ex, ID)
         names = ['m_%s' % 'ba'[i] for i in range(nm)]
@@ -136,6 +149,7 @@ def h_plot(sed_type, n_ap, n_sel, form, nm=2):
 
         def body(c):
             Recorder.made = []
+            del calls[:]
             pk.fs.files.clear()
             pk.fs.dirs.clear()
             grid = dict(w=symnp.SymArray(wl), names=names,
@@ -222,6 +236,26 @@ def h_plot(sed_type, n_ap, n_sel, form, nm=2):
                                 g.append(z3.And(d.t < rv_tol, d.t > -rv_tol))
                     cl.claim(c, conj(g), 'G2/G4 curves run from the last selected fit to the best; each passes through the predicted flux of its fit '
                              'at the fitted wavelengths (within 1e-3)', rinp, replay_plot)
+                # G5: every fit's SED is evaluated at that fit's own physical apertures: arcsec x 10**scale(kpc) x 1000 AU, for the
+                # apertures the display mode shows, in drawing order (from the last selected fit to the best)
+                want_ap = {'interp': list(aps_arcsec), 'largest': [max(aps_arcsec)], 'largest+smallest': [min(aps_arcsec), max(aps_arcsec)],
+                           'all': sorted(set(aps_arcsec))}[sed_type]
+                top = [cc for cc in calls if cc[0] == ('interpolate_variable' if sed_type == 'interp' else 'interpolate')]
+                if sed_type == 'interp':
+                    top = [cc for cc in calls if cc[0] == 'interpolate_variable']
+                else:
+                    top = [cc for cc in calls if cc[0] == 'interpolate']
+                ok5 = len(top) == nsel
+                g = []
+                if ok5:
+                    for pos, (_kind, nme, aps) in enumerate(top):
+                        fit = nsel - 1 - pos
+                        ok5 = ok5 and str(nme).strip() == v['names'][fit] and len(aps) == len(want_ap)
+                        if ok5:
+                            for a_arc, got in zip(want_ap, aps):
+                                g.append(C.same(got, a_arc * C.s_pow10(v['sc'][fit]) * 1000.0))
+                cl.claim(c, conj(g) if ok5 else False, 'G5 each fit\'s own SED is evaluated at its own apertures (arcsec x 10**scale x 1000 AU) for mode %s' % sed_type,
+                         rinp, replay_plot)
                 if part.witnesses < 2:
                     cl.witness(c)
         R.finish_part(part, ex, cov)
@@ -242,6 +276,8 @@ def configs(tier, seed):
     cfgs.append(Config('plot mode=largest single-aperture 2 fits file', h_plot('largest', 1, 2, 'file'), 1500))
     for sed_type in (('largest', 'all') if q else ('largest', 'largest+smallest', 'all', 'interp')):
         cfgs.append(Config('plot mode=%s two-aperture 1 fit object' % sed_type, h_plot(sed_type, 2, 1, 'object'), 3000))
+    for sed_type in (('largest', 'interp') if q else ('largest', 'largest+smallest', 'all', 'interp')):
+        cfgs.append(Config('plot mode=%s two-aperture 2 fits object' % sed_type, h_plot(sed_type, 2, 2, 'object'), 3000))
     return cfgs
 
 
